@@ -97,17 +97,17 @@ def run(ctx):
                        "failing dials. T: directed command scripts for the two suspected races (Stop and RemovePeer variants) and random "
                        "scripts of 6-19 commands (add/remove/start/stop/conn/disc/settle/fire/dialok/dialfail) on 2 peers; every "
                        "recorded run is validated by TracePeering. non-trivial = run with a Connect call and an observed armed timer. "
-                       "Backoff: all sequences in seconds (M), 12/150 recorded sequences of 100 calls (T)")
+                       "Backoff: all sequences of any length in whole seconds (M), 12/150 recorded sequences of 100 calls (T)")
     allow = ("DevRunStart", "DevRunRStopc")
     if os.environ.get("VERIF_SKIP_M"):      # self-test convenience: the model does not depend on the repo
         return run_t(ctx)
     # ---- M
-    ctx.tlc_mc(SPEC, "Peering.tla", "MCPeering.cfg" if q else "MCPeeringT.cfg", timeout=3000, coverage=not q, allow_zero=allow)
-    ctx.tlc_mc(SPEC, "Backoff.tla", "MCBackoff.cfg", timeout=900, deadlock=False)
+    ctx.tlc_mc(SPEC, "Peering.tla", "MCPeering.cfg" if q else "MCPeeringT.cfg", timeout=14400, coverage=not q, allow_zero=allow)
+    ctx.tlc_mc(SPEC, "Backoff.tla", "MCBackoff.cfg", timeout=3600)
     if not q:
         for cfg, want in (("MCPeeringDev1.cfg", "NoTimerAfterStop"), ("MCPeeringDev1Dial.cfg", "NoDialAfterStop"),
                           ("MCPeeringDev2.cfg", "ScheduledWhileRunning")):
-            r = ctx.tlc_mc(SPEC, "Peering.tla", cfg, timeout=900, expect_violation=want)
+            r = ctx.tlc_mc(SPEC, "Peering.tla", cfg, timeout=3600, expect_violation=want)
             if not (r["violated"] and want in r["violated"]):
                 ctx.broken("model sensitivity: %s should violate %s but gave %s" % (cfg, want, r["violated"]))
     ctx.cov["exhaustive"] = True
@@ -118,7 +118,7 @@ def run_t(ctx):
     q = ctx.quick
     binp = ctx.go_build(PKG, ["peering/zz_verif_C46_test.go"])
     allrecs = []
-    for scen, to in (("directed", 900), ("random", 3600)):
+    for scen, to in (("directed", 3600), ("random", 14400)):
         recs, out, rc = ctx.go_run(binp, TEST, pkg=PKG, mode="record", env={"C46_SCEN": scen}, timeout=900)
         if rc != 0 or not recs:
             ctx.broken("record driver (%s) died: rc=%s %s" % (scen, rc, out[-1500:]))
@@ -133,14 +133,14 @@ def run_t(ctx):
         else:
             validate(ctx, recs, scen, to, negative=(scen == "random"), minimal=True)
     if q:
-        validate(ctx, allrecs, "all", 3600, negative=True)
+        validate(ctx, allrecs, "all", 7200, negative=True)
     # ---- T: numeric backoff law
     recs, out, rc = ctx.go_run(binp, TEST, pkg=PKG, mode="record", env={"C46_SCEN": "backoff"}, timeout=300)
     if rc != 0 or not recs:
         ctx.broken("record driver (backoff) died: rc=%s %s" % (rc, out[-1500:]))
         return
     tr = ctx.write_ndjson("backoff.ndjson", recs)
-    res = ctx.tlc_trace(SPEC, "TraceBackoff.tla", "TraceBackoff.cfg", tr, timeout=900)
+    res = ctx.tlc_trace(SPEC, "TraceBackoff.tla", "TraceBackoff.cfg", tr, timeout=3600)
     if res["timeout"]:
         ctx.broken("backoff trace validation timed out")
     elif not res["accepted"]:
@@ -155,7 +155,7 @@ def run_t(ctx):
         i = max(k for k, r in enumerate(recs) if r["ev"] == "Backoff" and r["prev"] < 100000)
         bad = [dict(r) for r in recs[:i + 1]]
         bad[i]["next"] = bad[i]["prev"]          # no growth
-        r3 = ctx.tlc_trace(SPEC, "TraceBackoff.tla", "TraceBackoff.cfg", ctx.write_ndjson("backoff_neg.ndjson", bad), timeout=900)
+        r3 = ctx.tlc_trace(SPEC, "TraceBackoff.tla", "TraceBackoff.cfg", ctx.write_ndjson("backoff_neg.ndjson", bad), timeout=3600)
         if r3["accepted"] or r3["hwm"] != i:
             ctx.broken("negative control for TraceBackoff not rejected where expected (accepted=%s hwm=%s want=%s)"
                        % (r3["accepted"], r3["hwm"], i))
